@@ -648,7 +648,7 @@ def roadnet_part(ck, tier):
                 {"property": "C20", "map": relname, "options": o, "differs_in": diff, "seed": sd},
             )
     ck.cov["cached_vs_parsed_compared"] = ncmp
-    if ncmp == 0:
+    if ncmp == 0 and not ck.violations:
         raise MachineryError("no cached/parsed pair was compared")
 
     # ---- mutants: TLC itself checks I_MutantsCaught; report which were caught
